@@ -13,6 +13,7 @@ echo "== patch: $(grep -c '^[+-][^+-]' $dst/patch.diff) changed lines; demo file
 echo "== demo WITH the change"
 (cd "$wt/$mod" && go test -vet=off -count=1 "$@" 2>&1 | grep -v "^{" | tail -8); 
 echo "== demo WITHOUT the change"
-git -C "$wt" stash -q
+# (not git stash: the stash is shared by all worktrees of a repository, and sub-agents use it concurrently)
+(cd "$wt" && git apply -R "$dst/patch.diff") || { echo "cannot reverse the patch"; exit 2; }
 (cd "$wt/$mod" && go test -vet=off -count=1 "$@" 2>&1 | grep -v "^{" | tail -4)
-git -C "$wt" stash pop -q
+(cd "$wt" && git apply "$dst/patch.diff")
